@@ -402,6 +402,9 @@ class CoopLock:
         s = self._sched()
         if s is None:
             # inert mode (teardown / outside an execution): never block
+            if Scheduler.current is None and not self.reentrant and self.count > 0 and self.owner == threading.get_ident():
+                # synchronous world: a plain lock taken again by the thread that holds it would hang for ever
+                raise RuntimeError("self-deadlock: thread acquires the non-reentrant lock %s it already holds" % self.name)
             self.owner = threading.get_ident()
             self.count += 1
             return True
